@@ -84,10 +84,12 @@ def histories(draw):
     # always start with an objective
     steps.append([draw(st.sampled_from(["minimize", "maximize"])), draw(st.integers(0, len(OBJECTIVES) - 1))])
     for _ in range(draw(st.integers(2, 11))):
-        k = draw(st.sampled_from(["minimize", "maximize", "subject_to", "subject_to", "subject_to_list", "set_lb", "set_ub",
+        k = draw(st.sampled_from(["minimize", "maximize", "flip", "flip", "subject_to", "subject_to", "subject_to_list", "set_lb", "set_ub",
                                   "solve", "solve", "solve", "variables", "n_variables", "get_bounds"]))
         if k in ("minimize", "maximize"):
             steps.append([k, draw(st.integers(0, len(OBJECTIVES) - 1))])
+        elif k == "flip":
+            steps.append(["flip"])  # same objective expression object, opposite sense
         elif k == "subject_to":
             steps.append([k, draw(st.integers(0, len(CONSTRAINTS) - 1))])
         elif k == "subject_to_list":
@@ -203,6 +205,11 @@ def check(case):
         populated = set()
         for i, step in enumerate(case["steps"]):
             k = step[0]
+            if k == "flip":
+                if state.obj is None:
+                    continue
+                step = ["maximize" if state.sense == "minimize" else "minimize", state.obj]
+                k = step[0]
             if k in ("minimize", "maximize"):
                 if step[1] not in obj_cache:
                     obj_cache[step[1]] = b.ev(OBJECTIVES[step[1]])  # the SAME expression object when an objective comes back
